@@ -8,7 +8,7 @@
 using namespace SimTK;
 using std::string;
 
-static string num(double x) { char b[40]; snprintf(b, sizeof b, "%.17g", x); return b; }
+static string num(double x) { if (x != x) return "NaN"; if (x > 1e308) return "Infinity"; if (x < -1e308) return "-Infinity"; char b[40]; snprintf(b, sizeof b, "%.17g", x); return b; }
 template <class P> static string jv(const Vec<3, P>& v) { return "[" + num(v[0]) + "," + num(v[1]) + "," + num(v[2]) + "]"; }
 template <class M> static string jm(const M& m) { std::ostringstream o; o << "["; for (int i = 0; i < 3; ++i) { o << (i ? "," : "") << "["; for (int j = 0; j < 3; ++j) o << (j ? "," : "") << num(m[i][j]); o << "]"; } o << "]"; return o.str(); }
 
